@@ -114,6 +114,21 @@ do {							\
 static void print_header(struct qb_ringbuffer_s * rb);
 static int _rb_chunk_reclaim(struct qb_ringbuffer_s * rb);
 
+/*
+ * An empty ring (read_pt == write_pt) has no chunk at read_pt, whatever the
+ * stale bytes left there by an earlier payload look like. Check that before
+ * trusting the magic word, so old payload equal to QB_RB_CHUNK_MAGIC is never
+ * taken for a chunk header.
+ */
+static inline uint32_t
+_rb_chunk_magic_at_read_pt(struct qb_ringbuffer_s * rb, uint32_t read_pt)
+{
+	if (read_pt == rb->shared_hdr->write_pt) {
+		return QB_RB_CHUNK_MAGIC_DEAD;
+	}
+	return QB_RB_CHUNK_MAGIC_GET(rb, read_pt);
+}
+
 qb_ringbuffer_t *
 qb_rb_open(const char *name, size_t size, uint32_t flags,
 	   size_t shared_user_data_size)
@@ -539,7 +554,7 @@ _rb_chunk_reclaim(struct qb_ringbuffer_s * rb)
 	int rc = 0;
 
 	old_read_pt = rb->shared_hdr->read_pt;
-	chunk_magic = QB_RB_CHUNK_MAGIC_GET(rb, old_read_pt);
+	chunk_magic = _rb_chunk_magic_at_read_pt(rb, old_read_pt);
 	if (chunk_magic != QB_RB_CHUNK_MAGIC) {
 		errno = EINVAL;
 		return -errno;
@@ -614,7 +629,7 @@ qb_rb_chunk_peek(struct qb_ringbuffer_s * rb, void **data_out, int32_t timeout)
 		return res;
 	}
 	read_pt = rb->shared_hdr->read_pt;
-	chunk_magic = QB_RB_CHUNK_MAGIC_GET(rb, read_pt);
+	chunk_magic = _rb_chunk_magic_at_read_pt(rb, read_pt);
 	if (chunk_magic != QB_RB_CHUNK_MAGIC) {
 		if (rb->notifier.post_fn) {
 			(void)rb->notifier.post_fn(rb->notifier.instance, res);
@@ -654,7 +669,7 @@ qb_rb_chunk_read(struct qb_ringbuffer_s * rb, void *data_out, size_t len,
 	}
 
 	read_pt = rb->shared_hdr->read_pt;
-	chunk_magic = QB_RB_CHUNK_MAGIC_GET(rb, read_pt);
+	chunk_magic = _rb_chunk_magic_at_read_pt(rb, read_pt);
 
 	if (chunk_magic != QB_RB_CHUNK_MAGIC) {
 		if (rb->notifier.timedwait_fn == NULL) {
